@@ -156,7 +156,8 @@ def queries(tier, seed):
     qs = []
     seqs = [("SERVER", "Closed", ["cer_ok"]), ("CLIENT", "Open", ["dwr_ok"]), ("SERVER", "Open", ["dwr_ok", "dwr_ok"]),
             ("CLIENT", "Open", ["dwr_ok", "cer_ok"]), ("SERVER", "Open", ["cer_ok", "dwr_ok", "dpr_ok"]), ("CLIENT", "Open", ["dwr_ok", "app_req", "dwr_ok"]),
-            ("SERVER", "Closed", ["cer_ok", "dwr_ok", "dwr_ok"])]
+            ("SERVER", "Closed", ["cer_ok", "dwr_ok", "dwr_ok"]), ("SERVER", "Open", ["app_req", "dwr_ok", "app_req"]),
+            ("CLIENT", "Open", ["app_ans", "dpr_ok", "app_req"])]
     if tier != "quick":
         seqs += [("CLIENT", "Open", ["dwr_ok", "dwr_ok", "dwr_ok"]), ("SERVER", "Open", ["cer_ok", "cer_ok", "dpr_ok"]), ("CLIENT", "Open", ["app_ans", "dwr_ok", "dpr_ok"]),
                  ("SERVER", "Open", ["dwr_ok", "dwa_ok", "dwr_ok"]), ("CLIENT", "Open", ["dpr_ok"]), ("SERVER", "Closed", ["cer_ok", "dpr_ok"])]
